@@ -211,6 +211,8 @@ func (e *Env) ident(name string) *Term {
 		return &Term{Op: "nil", Sort: "Nil"}
 	case "heapTop":
 		return e.st.Get(e.g, "heapTop")
+	case "f64_0":
+		return Const("f64_0", SF64)
 	}
 	if _, ok := valCtors[name]; ok && name == "VNil" {
 		return Const("VNil", SVal)
@@ -462,6 +464,19 @@ func (e *Env) call(x *ast.CallExpr) *Term {
 			conds = append(conds, Not(Eq(r, e.trS(a, SInt))))
 		}
 		return Forall([]*Term{r}, Implies(And(conds...), Eq(Select(cur, r), Select(was, r))), Select(cur, r))
+	case "unchangedOutside":
+		// unchangedOutside("Arr:Str", base, lo, hi): the cells of backing array `base` outside [lo, hi) keep their entry values
+		comp := e.strArg(x.Args[0])
+		if e.old == nil {
+			e.fail("unchangedOutside needs an entry state")
+		}
+		b := e.trS(x.Args[1], SInt)
+		lo := e.trS(x.Args[2], SInt)
+		hi := e.trS(x.Args[3], SInt)
+		cur := Select(e.st.Get(e.g, comp), b)
+		was := Select(e.old.st.Get(e.g, comp), b)
+		j := Const("?j", SInt)
+		return Forall([]*Term{j}, Implies(Or(Lt(j, lo), mk(">=", SBool, j, hi)), Eq(Select(cur, j), Select(was, j))), Select(cur, j))
 	case "distinct":
 		var args []*Term
 		for _, a := range x.Args {
